@@ -18,6 +18,13 @@ Proof. exact lookup_none. Qed.
 Theorem C19_hashed_codes_contiguous : forall d v vs i, no_explicit vs -> (i < S (length vs))%nat ->
   nth i (codes (with_start d (v :: vs))) 0 = d + N.of_nat i.
 Proof. exact hashed_codes_contiguous. Qed.
+(** ... so looking a code up returns the variant it was assigned to, for every enum whose
+    variants after the first carry no explicit discriminant *)
+Theorem C19_hashed_lookup_inverse : forall d v vs i, no_explicit vs -> (i < S (length vs))%nat ->
+  lookup (codes (with_start d (v :: vs))) (d + N.of_nat i) = Some i.
+Proof. exact hashed_lookup_inverse. Qed.
+Theorem C19_contiguous_codes_distinct : forall vs next, no_explicit vs -> NoDup (codes_from next vs).
+Proof. exact codes_from_nodup. Qed.
 Theorem C19_one_code_per_variant : forall vs next, length (codes_from next vs) = length vs.
 Proof. exact codes_length. Qed.
 
